@@ -22,6 +22,8 @@ pub enum HOp {
     Reopen,
     /// reset_flw() with the configuration the logger was built with (same file / family)
     ResetSame,
+    /// as ResetSame, but the builder asks for the other line ending
+    ResetOtherEnding,
 }
 
 pub struct Live {
@@ -112,9 +114,15 @@ impl<'a> Hist<'a> {
                     .reopen_output()
                     .map_err(|e| StepErr::Op(format!("reopen_output: {e} ({e:?})")))?;
             }
-            HOp::ResetSame => {
+            HOp::ResetSame | HOp::ResetOtherEnding => {
                 // (the Logger strips the flush interval from the write mode of its file writer)
-                let b = self.cfg.flw_builder(&self.env.dir);
+                let b = if op == HOp::ResetOtherEnding {
+                    let mut c = self.cfg.clone();
+                    c.crlf = !c.crlf;
+                    c.flw_builder(&self.env.dir)
+                } else {
+                    self.cfg.flw_builder(&self.env.dir)
+                };
                 use flexi_logger::WriteMode as WM;
                 let b = match self.cfg.mode.write_mode() {
                     WM::BufferAndFlush => b.write_mode(WM::BufferDontFlush),
